@@ -491,7 +491,8 @@ Enc('PushT1', 'T16', '1011 0 10 r14:1 ' + RL(7), family=FAM,
     unpred=lambda f, S: reglist(f) == 0, sem=push_multi)
 
 Enc('PushT2', 'T32', '11101 00 100 1 0 1101 (0) r14:1 (0) ' + RL(12), family=FAM,
-    unpred=lambda f, S: z3.Not(multi(f)), sem=push_multi)
+    unpred=lambda f, S: z3.Not(multi(f)), sem=push_multi,
+    known=[('F033', lambda f, S: bits(S.sp(), 1, 0) != 0)])
 
 Enc('PushT3', 'T32', '11111 00 0 0 10 0 1101 Rt 1 101 00000100', family=FAM,
     unpred=lambda f, S: any_of(f['Rt'], 13, 15), sem=push_single)
